@@ -621,6 +621,18 @@ package tsm1
 //@   loop 1 invariant none_tombstoned_so_far: 1 <= i && (!dedup ==> all(j, 0, i, j < len(k.blocks) ==> len(k.blocks[j].tombstones) == 0))
 //@   call tsmKeyIterator.combineBoolean#1 requires tombstoned_blocks_take_the_decode_path: dedup || all(j, 0, len(k.blocks), len(k.blocks[j].tombstones) == 0)
 
+// ---- C10: a range delete drops a series from the index only if no file still holds it ----
+// After the tombstones are written, deleteSeriesRange walks EVERY data file and crosses out the series keys that
+// still occur there; what is left is removed from the index. Files outside the deleted time range are exactly the
+// ones that keep a series alive, so the pass may not skip a file: each invocation consults the file's key index.
+// (Thin: the merge-join inside the pass is not under contract.)
+//@ func (*Engine).deleteSeriesRange$4
+//@   props C10
+//@   nosafety
+//@   ghost consulted bool = false
+//@   at after KeyCount#1: ghost consulted = true
+//@   ensures every_file_is_consulted: result == nil ==> consulted
+
 // ---- C13: a WAL write entry carries every value it was given ----
 // Encode reuses pooled buffers that are not zeroed: every byte of the encoded region has to be assigned. For the
 // one-byte boolean payload that means both arms write (a false must overwrite whatever the buffer held).
